@@ -27,7 +27,7 @@ type codecCase struct {
 }
 
 var codecSeed int64
-var buildStyles = []string{"newavp", "novbit", "literal"}
+var buildStyles = []string{"newavp", "novbit", "literal", "byname"}
 
 type codecLine struct {
 	Style string  `json:"style"`
@@ -92,7 +92,7 @@ func runCodecCase(c *codecCase, dp *dict.Parser) codecLine {
 	l := codecLine{Ev: "msg", ID: c.ID, Src: c.Src, Dict: c.Dict, M: c.M, Bytes: []int{}, WBytes: []int{}, DHdr: emptyHdr(), DAVPs: []abs.AVP{}, Bytes2: []int{}}
 	var wire []byte
 	if c.Style == "" {
-		c.Style = buildStyles[int((int64(c.ID)+codecSeed)%3)]
+		c.Style = buildStyles[int((int64(c.ID)+codecSeed)%int64(len(buildStyles)))]
 	}
 	l.Style = c.Style
 	if len(c.Bytes) > 0 {
